@@ -165,6 +165,9 @@ def run_groups(names, only=None, extra_flags=()):
             r['failed_checks'] = re.findall(r'Failed Checks: (.*)', b)[:20]
             if 'VERIFICATION:- SUCCESSFUL' in b:
                 r['status'] = 'success'
+            elif 'VERIFICATION:- FAILED' in b and re.search(r'CBMC failed|out of memory|CBMC timed out|signal', b):
+                r['status'] = 'undecided'
+                r['reason'] = 'tool limit: ' + ' '.join(re.findall(r'CBMC[^\n]*', b))[:200]
             elif 'VERIFICATION:- FAILED' in b:
                 # unwinding-assertion / unsupported-feature failures are "undecided", not violations
                 fc = ' '.join(r['failed_checks'])
